@@ -100,6 +100,7 @@ def pRole (kv : KV) : Option Role := do
     allowIPSANs := ← pBool (← get kv "ipok"),
     allowedIPCIDRs := ← pCIDRs (← get kv "acidr"),
     allowedURISANs := ← pStrList (← get kv "auri"),
+    allowedSerials := ← pStrList (← get kv "asn"),
     keyType := ← get kv "kt",
     keyBits := ← pNat (← get kv "kb"),
     keyUsage := pList (← get kv "ku"),
@@ -133,7 +134,8 @@ def pCSR (kv : KV) : Option (Option CSR) := do
     uris := ← pStrList (← get kv "curi"),
     exts,
     keyType := ← get kv "ckt",
-    keyBits := ← pNat (← get kv "ckb") })
+    keyBits := ← pNat (← get kv "ckb"),
+    serial := ← pStr (← get kv "csn") })
 
 def pEndpoint (s : String) : Option Endpoint :=
   match s with
@@ -150,6 +152,7 @@ def pReq (kv : KV) : Option Req := do
     altNames := ← pStrList (← get kv "alt"),
     ipSans := pList (← get kv "ip"),
     uriSans := ← pStrList (← get kv "uri"),
+    serial := ← pStr (← get kv "sn"),
     excludeCN := ← pBool (← get kv "xcn"),
     keyType := if qkt = "-" then none else some qkt,
     keyBits := ← (if qkb = "-" then some none else qkb.toNat?.map some),
@@ -172,7 +175,7 @@ def pEnv (kv : KV) : Option Env := do
 def showNats (l : List Nat) : String := if l.isEmpty then "-" else ",".intercalate (l.map toString)
 
 def showCert (c : Cert) : String :=
-  s!"ok ca={b01 c.isCA} bc={b01 c.bcValid} nb={c.notBefore} na={c.notAfter} cn={showStr c.cn} dns={showStrList c.dns} em={showStrList c.emails} ip={showList c.ips} uri={showStrList c.uris} kt={c.keyType} kb={c.keyBits} ku={c.keyUsage} eku={showNats c.extKeyUsage} sig=1 fresh=1"
+  s!"ok ca={b01 c.isCA} bc={b01 c.bcValid} nb={c.notBefore} na={c.notAfter} cn={showStr c.cn} dns={showStrList c.dns} em={showStrList c.emails} ip={showList c.ips} uri={showStrList c.uris} kt={c.keyType} kb={c.keyBits} ku={c.keyUsage} eku={showNats c.extKeyUsage} sig=1 fresh=1 ssn={showStr c.subjSerial}"
 
 def reqStrings (role : Role) (req : Req) : List Str :=
   [req.cn, role.names.displayName] ++ req.altNames ++ role.names.allowedDomains ++ req.uriSans ++ role.allowedURISANs ++
